@@ -165,4 +165,10 @@ using BFloatT16 = decltype(0.0BF16);
 #endif
 } // namespace Qentem
 
+#ifdef QENTEM_VERIF_SIM
+// Verification hook (off unless QENTEM_VERIF_SIM is defined): lets a simulator force exact-fit
+// growth of Array / StringStream so that the reallocate-and-relocate path runs on every append.
+extern "C" int qentem_verif_exact_fit();
+#endif
+
 #endif
